@@ -15,6 +15,12 @@ use ndarray::Array2;
 // Inputs: n = 3 observations, small integers with column sums divisible by 3, so that means, centred
 // values, S_ij, S_ij/2 are exact (with n = 4 the running-mean variance of ndarray is not exact).
 // ------------------------------------------------------------------------------------------------
+// `ArrayBase::dot` on f32 goes to the `matrixmultiply` crate, which selects a kernel by run-time CPU feature
+// detection (inline `cpuid`, not modelled by Kani).  The detection is stubbed to "no SIMD extension", so the
+// portable kernel of matrixmultiply is the one executed symbolically (trusted: the AVX/FMA kernels compute the
+// same products; they are not code of this repository).
+fn cpuid_stub(_l: u32, _s: u32) -> core::arch::x86_64::CpuidResult { core::arch::x86_64::CpuidResult { eax: 0, ebx: 0, ecx: 0, edx: 0 } }
+
 fn data<const K: usize>(bound: i8) -> ([[i32; K]; 3], Array2<f32>) {
     let mut x = [[0i32; K]; 3];
     let mut v = Vec::with_capacity(3 * K);
@@ -37,11 +43,12 @@ fn pearson_ok(r: f32, s: i32, ki: i32, kj: i32) -> bool {
 }
 
 // every argument handed to sqrt is a sample variance S_jj/(n-1), one per feature, for all inputs in the bound
-// @unit class=bounded tier=quick mem=heavy bound="3x2,|v|<=4,column sums divisible by 3,sqrt uninterpreted" fns=linfa::correlation::pearson_correlation
+// @unit class=bounded tier=thorough mem=heavy timeout=900 bound="3x2,|v|<=4,column sums divisible by 3,sqrt uninterpreted" fns=linfa::correlation::pearson_correlation
 #[kani::proof]
-#[kani::unwind(7)]
+#[kani::unwind(10)]
 #[kani::stub(alloc::fmt::format, fmt_stub)]
 #[kani::stub(f32::sqrt, ghost_sqrt32)]
+#[kani::stub(core::arch::x86_64::__cpuid_count, cpuid_stub)]
 fn c05_pearson_3x2_variances() {
     let (x, d) = data::<2>(4);
     let out = pearson_correlation(&d);
@@ -54,11 +61,12 @@ fn c05_pearson_3x2_variances() {
 }
 
 // the coefficient itself, on inputs whose variances are perfect squares (sqrt exact there)
-// @unit class=bounded tier=quick mem=heavy bound="3x2,|v|<=4,column sums divisible by 3,variances perfect squares" fns=linfa::correlation::pearson_correlation
+// @unit class=bounded tier=thorough mem=heavy timeout=900 bound="3x2,|v|<=4,column sums divisible by 3,variances perfect squares" fns=linfa::correlation::pearson_correlation
 #[kani::proof]
-#[kani::unwind(7)]
+#[kani::unwind(10)]
 #[kani::stub(alloc::fmt::format, fmt_stub)]
 #[kani::stub(f32::sqrt, sqrt_tab32)]
+#[kani::stub(core::arch::x86_64::__cpuid_count, cpuid_stub)]
 fn c05_pearson_3x2_value() {
     let (x, d) = data::<2>(4);
     let (k0, k1): (i32, i32) = (small(8) as i32, small(8) as i32);
@@ -74,13 +82,14 @@ fn c05_pearson_3x2_value() {
 }
 
 // three features: coefficient order (0,1),(0,2),(1,2)
-// @unit class=bounded tier=thorough mem=heavy bound="3x3,|v|<=4,column sums divisible by 3,variances perfect squares" fns=linfa::correlation::pearson_correlation
+// @unit class=bounded tier=thorough mem=heavy timeout=1500 bound="3x3,|v|<=2,column sums divisible by 3,variances perfect squares" fns=linfa::correlation::pearson_correlation
 #[kani::proof]
-#[kani::unwind(7)]
+#[kani::unwind(10)]
 #[kani::stub(alloc::fmt::format, fmt_stub)]
 #[kani::stub(f32::sqrt, sqrt_tab32)]
+#[kani::stub(core::arch::x86_64::__cpuid_count, cpuid_stub)]
 fn c05_pearson_3x3_order_value() {
-    let (x, d) = data::<3>(4);
+    let (x, d) = data::<3>(2);
     let (k0, k1, k2): (i32, i32, i32) = (small(8) as i32, small(8) as i32, small(8) as i32);
     kani::assume(k0 > 0 && k1 > 0 && k2 > 0);
     kani::assume(s_of(&x, 0, 0) == 2 * announce_root(0, k0) && s_of(&x, 1, 1) == 2 * announce_root(1, k1) && s_of(&x, 2, 2) == 2 * announce_root(2, k2));
@@ -93,21 +102,3 @@ fn c05_pearson_3x3_order_value() {
     kani::cover!(out[0] != out[1] && out[1] != out[2] && out[0] != out[2]);
 }
 
-// EXPERIMENT
-fn cpuid_stub(_l: u32, _s: u32) -> core::arch::x86_64::CpuidResult { core::arch::x86_64::CpuidResult { eax: 0, ebx: 0, ecx: 0, edx: 0 } }
-// @unit class=bounded tier=thorough mem=heavy timeout=400 bound="x" fns=x
-#[kani::proof]
-#[kani::unwind(10)]
-#[kani::stub(alloc::fmt::format, fmt_stub)]
-#[kani::stub(f32::sqrt, sqrt_tab32)]
-#[kani::stub(core::arch::x86_64::__cpuid_count, cpuid_stub)]
-fn c05_exp_pearson_cpuid() {
-    let (x, d) = data::<2>(4);
-    let (k0, k1): (i32, i32) = (small(8) as i32, small(8) as i32);
-    kani::assume(k0 >= 0 && k1 >= 0);
-    kani::assume(s_of(&x, 0, 0) == 2 * announce_root(0, k0) && s_of(&x, 1, 1) == 2 * announce_root(1, k1));
-    let out = pearson_correlation(&d);
-    assert!(out.len() == 1);
-    assert!(pearson_ok(out[0], s_of(&x, 0, 1), k0, k1));
-    kani::cover!(out[0] == 1.0);
-}
